@@ -197,7 +197,7 @@ func c13Body() func(h []dsim.Rec) {
 		kind := 1 + dsim.Choose(4)
 		sick[l] = kind
 		node := l.conn.Peer
-		k := node.NWrites + 1 + dsim.Choose(30)
+		k := node.WriteCount() + 1 + dsim.Choose(30)
 		f := world.Faults{}
 		switch kind {
 		case sickBlockForever, sickBlockThenUnblock:
